@@ -225,6 +225,9 @@ func (r *Reader) ReadWord(p []byte) error {
 	case r.literal > 0:
 		r.literal--
 		_, err := io.ReadFull(r.rd, p)
+		if err == io.EOF {
+			err = io.ErrUnexpectedEOF
+		}
 		return err
 	}
 
